@@ -47,7 +47,7 @@ func BenchRoots() []refchess.Pos { suiteOnce.Do(loadSuite); return bench }
 func Root(t *rapid.T) (refchess.Pos, string) {
 	suiteOnce.Do(loadSuite)
 	for attempt := 0; attempt < 4; attempt++ {
-		switch draw(t, 0, 11, "family") {
+		switch draw(t, 0, 12, "family") {
 		case 0:
 			return refchess.MustFEN(StartFEN), "startpos"
 		case 1:
@@ -84,6 +84,10 @@ func Root(t *rapid.T) (refchess.Pos, string) {
 		case 11:
 			if p, ok := BatteryMotif(t); ok {
 				return p, "battery"
+			}
+		case 12:
+			if p, ok := BlockMotif(t); ok {
+				return maybeMirror(t, p), "block"
 			}
 		}
 	}
